@@ -4,14 +4,6 @@ import SlocModel.Driver.Proto
 namespace SlocModel.Driver
 open SlocModel.Counter
 
-def parseStrs : Nat → List String → Option (List (List Char) × List String)
-  | 0, rest => some ([], rest)
-  | n + 1, s :: rest => do
-    let cs ← decodeStr s
-    let (xs, rest') ← parseStrs n rest
-    some (cs :: xs, rest')
-  | _, _ => none
-
 def parseKind (s : String) : Option PatternKind :=
   if s = "s" then some .static else if s = "l" then some .luaLongBracket
   else if s = "r" then some .rustRawString else none
